@@ -36,6 +36,8 @@ def build_netlist(ad, order=None):
             for k, v in d.get("data", {}).items():
                 D[k] = v
             defs[(lib["name"], d["name"])] = D
+            if ad.get("build") == "late-ports":
+                continue
             for p in d["ports"]:
                 P = D.create_port(name=p["name"], direction=getattr(s.Port.Direction, DIRS[p["dir"]]),
                                   is_downto=p.get("downto", True), lower_index=p.get("lower", 0))
@@ -53,6 +55,24 @@ def build_netlist(ad, order=None):
                 for k, v in i.get("props", {}).items():
                     X[k] = v
                 insts[i["name"]] = X
+        if ad.get("build") == "late-ports":
+            # the definitions are reshaped after they were instanced: ports arrive last-to-first,
+            # each inserted in front, pins one at a time (instances then hold their outer pins in an
+            # order that differs from the definition's port order)
+            for d in lib["defs"]:
+                D = defs[(lib["name"], d["name"])]
+                for p in reversed(d["ports"]):
+                    P = s.Port(name=p["name"], direction=getattr(s.Port.Direction, DIRS[p["dir"]]),
+                               is_downto=p.get("downto", True), lower_index=p.get("lower", 0))
+                    D.add_port(P, position=0)
+                    for _ in range(p["width"]):
+                        P.create_pin()
+                    if p["width"] == 1:
+                        P.is_scalar = not p.get("array", False)
+    for lib in ad["libs"]:
+        for d in lib["defs"]:
+            D = defs[(lib["name"], d["name"])]
+            insts = {x.name: x for x in D.children}
             ports = {p.name: p for p in D.ports}
             for net in d.get("nets", ()):
                 C = D.create_cable(name=net["name"], lower_index=net.get("lower", 0),
@@ -155,6 +175,7 @@ SKELETONS = {
     "K2-shared": ([_top([("u0", "A"), ("u1", "A")]), _nonleaf("A", [("c", "L1")])], ["L1"], "quick"),
     "K3-leaf-two-parents": ([_top([("ua", "A"), ("l", "L1")]), _nonleaf("A", [("c", "L1")])], ["L1"], "quick"),
     "K4-wire-only": ([_top([("ua", "A"), ("l", "L1")]), _nonleaf("A", [])], ["L1"], "quick"),
+    "K10-wire-only-shared": ([_top([("u0", "A"), ("u1", "A")]), _nonleaf("A", [])], [], "quick"),
     "K8-bus": ([_top([("ua", "A")], [port("t", 2, "inout")]), _nonleaf("A", [("c", "L2")], [port("b", 2, "inout")])], ["L2"], "quick"),
     "K5-chain3": ([_top([("ua", "A")]), _nonleaf("A", [("ub", "B")]), _nonleaf("B", [("c", "L1")])], ["L1"], "thorough"),
     "K6-shared-two-depths": ([_top([("ua", "A"), ("ub", "B")]), _nonleaf("A", [("ub", "B")]), _nonleaf("B", [("c", "L1")])], ["L1"], "thorough"),
